@@ -7,10 +7,10 @@ package main
 //   - the trailing-slash loops of CreateNode and Match = `stripSlashes` on both sides;
 //   - Paths.InMatchingOrder: what is counted, the loop over the counts, the sort of one group = `pathBefore`;
 //   - gorillamux: the router is created with UseEncodedPath, newSrv's trim of one trailing slash of the base path,
-//     `servers, err = makeServers(pathItem.Servers)` assigns the function-level variable (the leak, F-C09-10),
+//     the statements that write the loop's `servers` variable (`servers := servers` per iteration, then the path item's own),
 //     NewRouter stores one fresh &routers.Route per (path, server) with Server: s.server, FindRoute returns a copy;
-//   - legacy: NewRouter's route literal has no Server field, FindRoute never assigns route.Server (F-C09-8), the server
-//     is taken from doc.Servers only (F-C09-9);
+//   - legacy: NewRouter's route literal has no Server field, FindRoute stores the matched server into the copy it returns,
+//     the server is taken from doc.Servers only (F-C09-9);
 //   - which representation of the URL path is matched: gorillamux the escaped one (UseEncodedPath), legacy url.Path without
 //     servers and url.String() (Servers.MatchURL) with servers;
 //   - the two route error reasons of routers/types.go.
@@ -172,8 +172,13 @@ func extractRouterFacts(repo string) (string, error) {
 					if strings.HasPrefix(r, "mux.NewRouter()") {
 						mux = src(x)
 					}
-					if r == "makeServers(pathItem.Servers)" {
-						assign = src(x)
+					// every statement that writes the loop's `servers` variable: the per-iteration redeclaration and the
+					// assignment of the path item's own servers
+					if r == "makeServers(pathItem.Servers)" || (len(x.Lhs) == 1 && src(x.Lhs[0]) == "servers" && r == "servers") {
+						if assign != "" {
+							assign += " | "
+						}
+						assign += src(x)
 					}
 				}
 			case *ast.CompositeLit:
@@ -278,12 +283,12 @@ func extractRouterFacts(repo string) (string, error) {
 		miss("legacy.NewRouter")
 	}
 	if fd := funcOf(lg, "Router", "FindRoute"); fd != nil {
-		setsServer, serversFrom := false, ""
+		setsServer, serversFrom := "false", ""
 		ast.Inspect(fd.Body, func(n ast.Node) bool {
 			if as, ok := n.(*ast.AssignStmt); ok {
 				for _, l := range as.Lhs {
 					if strings.HasSuffix(src(l), ".Server") {
-						setsServer = true
+						setsServer = src(as)
 					}
 				}
 				if len(as.Lhs) == 1 && src(as.Lhs[0]) == "servers" && len(as.Rhs) == 1 {
@@ -291,11 +296,11 @@ func extractRouterFacts(repo string) (string, error) {
 				}
 			}
 			if kv, ok := n.(*ast.KeyValueExpr); ok && src(kv.Key) == "Server" {
-				setsServer = true
+				setsServer = src(kv)
 			}
 			return true
 		})
-		fact("legacy.findRoute.setsRouteServer", fmt.Sprint(setsServer))
+		fact("legacy.findRoute.setsRouteServer", setsServer)
 		fact("legacy.findRoute.serversFrom", serversFrom)
 		// which representation of the path is matched: url.Path without servers, what Servers.MatchURL returns with servers
 		var rem []string
